@@ -91,14 +91,27 @@ def gen_shape(r, small=False):
             if r.random() < 0.4:
                 b = r.randrange(n)
                 cons.append({"terms": [(1, b), (-1, v)], "sense": "le", "rhs": Fraction(0)})   # b <= g
-    return {"raw_bins": raw_bins, "rows": rows, "cons": cons, "prods": prods, "lin": lin, "gap": gap, "limit": limit, "ints": ints}
+    # a fifth of the models are built in two stages on one model object: the first `staged` binaries, a look at the optimum
+    # of that part (`solutions(limit=1)`, which adds no cut), then the rest of the model, then the enumeration that is judged
+    staged = r.randint(1, n) if r.random() < 0.2 else None
+    return {"raw_bins": raw_bins, "rows": rows, "cons": cons, "prods": prods, "lin": lin, "gap": gap, "limit": limit, "ints": ints,
+            "staged": staged}
 
 
 def build_real(shape):
     """build the model through the real wrapper API; returns (cbc, names, E vars)"""
     from aldy import lpinterface
     m = lpinterface.model("verif", "cbc")
-    V = [m.addVar(vtype="B", name=b) for b in shape["raw_bins"]]
+    k0 = shape.get("staged")
+    if k0:
+        V = [m.addVar(vtype="B", name=b) for b in shape["raw_bins"][:k0]]
+        m.setObjective(m.quicksum(1.0 * v for v in V))
+        first = list(m.solutions(0.0, limit=1))
+        m._verif_look = None if (len(first) == 1 and list(first[0][2]) == [] and abs(first[0][1]) < 1e-9) else \
+            f"the look at the first stage ({k0} free binaries, objective their sum) returned {first}"
+        V = V + [m.addVar(vtype="B", name=b) for b in shape["raw_bins"][k0:]]
+    else:
+        V = [m.addVar(vtype="B", name=b) for b in shape["raw_bins"]]
     names = [m.varName(v) for v in V]
     V = V + [m.addVar(vtype="I", lb=0, ub=ub, name=nm) for nm, ub in shape.get("ints", [])]
     E = []
@@ -178,7 +191,7 @@ def run_real(shape):
         if len(trace) >= cap:
             capped = True
             break
-    return {"names": names, "snap": snap, "trace": trace, "helpers": helpers, "capped": capped}
+    return {"names": names, "snap": snap, "trace": trace, "helpers": helpers, "capped": capped, "look": getattr(m, "_verif_look", None)}
 
 
 # ---------------------------------------------------------------------------------------
@@ -226,7 +239,7 @@ def oracle_check(shape, real, eps, tol=Fraction(1, 10**6)):
     objs = {}
     for a, o in pts:
         objs[a] = min(o, objs.get(a, o))
-    why = []
+    why = [real["look"]] if real.get("look") else []
     gap = shape["gap"]
     trace = real["trace"]
     acts = []
@@ -290,7 +303,7 @@ def case_json(shape):
         "rows": [{"terms": r["terms"], "target": str(r["target"]), "weight": str(r["weight"]), "bound": None if r["bound"] is None else str(r["bound"])} for r in shape["rows"]],
         "cons": [{"terms": c["terms"], "sense": c["sense"], "rhs": str(c["rhs"])} for c in shape["cons"]],
         "prods": shape["prods"], "lin": [[str(k), v] for k, v in shape["lin"]], "gap": str(shape["gap"]), "limit": shape["limit"],
-        "ints": [list(x) for x in shape.get("ints", [])]}.items()}
+        "ints": [list(x) for x in shape.get("ints", [])], "staged": shape.get("staged")}.items()}
 
 
 def shape_from_json(j):
@@ -299,7 +312,8 @@ def shape_from_json(j):
                       "bound": None if r["bound"] is None else Fraction(r["bound"])} for r in j["rows"]],
             "cons": [{"terms": [tuple(t) for t in c["terms"]], "sense": c["sense"], "rhs": Fraction(c["rhs"])} for c in j["cons"]],
             "prods": [(p[0], list(p[1])) for p in j["prods"]], "lin": [(Fraction(k), v) for k, v in j["lin"]],
-            "gap": Fraction(j["gap"]), "limit": j["limit"], "ints": [tuple(x) for x in j.get("ints", [])]}
+            "gap": Fraction(j["gap"]), "limit": j["limit"], "ints": [tuple(x) for x in j.get("ints", [])],
+            "staged": j.get("staged")}
 
 
 def exhaustive_gadgets():
@@ -380,6 +394,8 @@ def tie(ctx):
             msgs = msgs[1:]
         if real["capped"]:
             msgs.append("enumeration exceeded 2^n+1 yields")
+        if real.get("look"):
+            msgs.append(real["look"])
         if msgs:
             fam["valid_run"]["disagreements"].append({"why": "real solutions() trace is not a valid run of the model: " + msgs[0], "input": {"shape": cj},
                                                       "trace": real["trace"][:6], "model_best": o_run["best"]})
@@ -400,6 +416,7 @@ def tie(ctx):
         stats["multi_yield"] += len(real["trace"]) > 1
         stats["weird_names"] += real["names"] != sh["raw_bins"]
         stats["with_general_integers"] += bool(sh.get("ints"))
+        stats["built_in_two_stages"] = stats.get("built_in_two_stages", 0) + bool(sh.get("staged"))
         nb = str(len(sh["raw_bins"]))
         stats["bins_hist"][nb] = stats["bins_hist"].get(nb, 0) + 1
         npb = str(min(64, o_run["npoints"]) // 8 * 8)
